@@ -36,7 +36,7 @@ def run_threads(ctx, duration, nthreads):
     new_text = 'def e { salt: "n" splitters: u /* c */ return "new1" weighted 1, "new2" weighted 3 } // x'
     bad_text = 'def e { splitters: u return "a" weighted }'
     shared = ExperimentEvaluator(old_text)
-    units = ["u%d" % i for i in range(16)]
+    units = ["u%d" % i for i in range(12000)]
     seq_old = {u: ExperimentEvaluator(old_text)(u=u) for u in units}
     seq_new = {u: ExperimentEvaluator(new_text)(u=u) for u in units}
     errors, counts = [], {"compile": 0, "call": 0, "race-call": 0, "recompile": 0}
